@@ -128,6 +128,8 @@ pub fn one_case(kind: &str, si: &gen::SchemaInfo, input: &J, out: &mut Out) {
     }
 }
 
+fn frags_sdl() -> String { format!("{}\nscalar Custom\nenum E {{ X }}\ninput In {{ x: Int }}\ninterface I {{ a: Int  t: T }}\ninterface J implements I {{ a: Int  t: T }}\ninterface K {{ a: Int }}\ninterface L {{ a: Int }}\ntype T implements I & J & K {{ a: Int  t: T  i: I  j: J  u: U  k: K }}\ntype V {{ a: Int }}\ntype W implements I {{ a: Int  t: T }}\ntype X implements K & L {{ a: Int }}\nunion U = T | V\nunion U2 = V | W\ntype Query {{ a: Int  t: T  i: I  j: J  u: U  u2: U2  v: V  w: W  k: K  l: L  x: X }}\n", schemas::PRELUDE) }
+
 pub fn generate(kind: &str, thorough: bool, seed: u64, corpus: &str, out: &mut Out) {
     let mut rng = Rng::new(seed);
     let scale = if thorough { 12 } else { 1 };
@@ -178,6 +180,23 @@ pub fn generate(kind: &str, thorough: bool, seed: u64, corpus: &str, out: &mut O
                 out.schema(&si);
                 for t in random_docs(&si, &mut rng, 40, 4) { crate::valcases::validate_case(&si, &t, &tmp, out); }
             }
+            // documents where one rule's subject is another rule's lookup: fragments that are unused AND spread (by other
+            // unused fragments, by themselves, at impossible positions), unknown and duplicated fragments and types next to uses of them
+            let si = gen::SchemaInfo::new("frags", &frags_sdl());
+            out.schema(&si);
+            let frag_bodies = ["a", "a ...G", "t { ...G }", "...F", "a ... on V { a }", "...Nope", "t { t { ...F } }"];
+            let tcs = ["T", "V", "I", "Query", "E", "Nope"];
+            let ops = ["{ a }", "{ t { ...F } }", "{ t { ...G } }", "{ v { ...F } }", "{ t { ...F ...G } } query B { a }", "{ t { ...F } } { a }"];
+            let mut k = 0usize;
+            for op in ops.iter() { for fb in frag_bodies.iter() { for gb in frag_bodies.iter() { for (i, ft) in tcs.iter().enumerate() {
+                k += 1;
+                if !thorough && k % 4 != 0 { continue; }
+                let gt = tcs[(i + k) % tcs.len()];
+                let dup = if k % 7 == 0 { format!(" fragment F on {} {{ a }}", ft) } else { String::new() };
+                let t = format!("{} fragment F on {} {{ {} }} fragment G on {} {{ {} }}{}", op, ft, fb, gt, gb, dup);
+                let plans = crate::valcases::random_plans(&mut rng, 2);
+                crate::valcases::validate_case_plans(&si, &t, &tmp, &plans, out);
+            } } } }
         }
         "purity" => {
             let tmp = tmpdir();
@@ -523,7 +542,7 @@ pub fn generate(kind: &str, thorough: bool, seed: u64, corpus: &str, out: &mut O
             let tmp = tmpdir();
             let rules = ["UniqueFragmentNames", "KnownFragmentNames", "KnownTypeNames", "FragmentsOnCompositeTypes",
                          "NoUnusedFragments", "NoFragmentsCycle", "PossibleFragmentSpreads"];
-            let sdl = format!("{}\nscalar Custom\nenum E {{ X }}\ninput In {{ x: Int }}\ninterface I {{ a: Int  t: T }}\ninterface J implements I {{ a: Int  t: T }}\ninterface K {{ a: Int }}\ninterface L {{ a: Int }}\ntype T implements I & J & K {{ a: Int  t: T  i: I  j: J  u: U  k: K }}\ntype V {{ a: Int }}\ntype W implements I {{ a: Int  t: T }}\ntype X implements K & L {{ a: Int }}\nunion U = T | V\nunion U2 = V | W\ntype Query {{ a: Int  t: T  i: I  j: J  u: U  u2: U2  v: V  w: W  k: K  l: L  x: X }}\n", schemas::PRELUDE);
+            let sdl = frags_sdl();
             let si = gen::SchemaInfo::new("frags", &sdl);
             out.schema(&si);
             // (A) fragment graphs: edge j -> k of fragment j is a spread of Fk nested `depth` levels deep
